@@ -10,7 +10,7 @@ The computed strings/numbers themselves are run-time values of std / dependency 
                      never a default or wrong value; the produced kind is the documented one
   R-C18-count        count counts exactly the entries that are not UnResolved
 """
-from engine import ai, mirlib as M
+from engine import flow, ai, mirlib as M
 from engine import statusmon as S
 from engine.statusmon import Mon
 from rules import c08
@@ -334,6 +334,113 @@ def count_rule(ctx, cr):
     ctx.ob(rule, rule + ":uses-filter-count", any(p.endswith("Iterator::filter") for p in calls) and any(p.endswith("::count") for p in calls), "count must be filter(..).count() over its argument: %s" % calls[:6], fn=cf)
 
 
+VALUE_PATH_OPS = {
+    # function -> (named local holding the computed value, operations the value may pass through, with type arguments where they matter)
+    "rules::functions::date_time::parse_epoch": ("epoch", {
+        "chrono::DateTime::parse_from_rfc3339": None, "std::result::Result::map_err": None, "<std::result::Result<T, E> as std::ops::Try>::branch": None,
+        "chrono::DateTime::with_timezone": "chrono::Utc",          # the instant, expressed in UTC
+        "chrono::DateTime::timestamp": "chrono::Utc",              # seconds of that instant
+        "<std::rc::Rc<T, A> as std::ops::Deref>::deref": None, "<std::string::String as std::ops::Deref>::deref": None,
+        "<std::slice::Iter<'a, T> as std::iter::Iterator>::next": None, "<I as std::iter::IntoIterator>::into_iter": None, "core::slice::<impl [T]>::iter": None,
+    }),
+}
+
+
+def value_paths(ctx, cr):
+    """the computed value reaches the result through the documented primitive only: on the backward slice of the value no other
+    operation occurs (parse_epoch: RFC 3339 parse -> the same instant in UTC -> its timestamp; dropping the offset with
+    naive_local().and_utc() or reading the local clock's zone is a different function)"""
+    rule = "R-C18-dispatch"
+    for key, (local, ops) in sorted(VALUE_PATH_OPS.items()):
+        f = cr.fns.get(key)
+        if not f:
+            ctx.lost(rule, "%s:value-path:%s" % (rule, key.split("::")[-1]), key)
+            continue
+        names = {n: l for n, l in f["names"] if isinstance(l, int)}
+        if local not in names:
+            ctx.lost(rule, "%s:value-path:%s" % (rule, key.split("::")[-1]), "local %s" % local)
+            continue
+        calls, consts, locs = flow.backward_slice(f, names[local])
+        bad = []
+        for c in calls:
+            p = M.norm_path(c["fn"].get("path", ""))
+            if p not in ops:
+                bad.append("%s (l.%s)" % (p, c.get("ln")))
+            elif ops[p] is not None and not any(ops[p] in cr.ty_str(g) for g in c["fn"].get("ga", [])):
+                bad.append("%s instantiated with %s, expected %s" % (p, [cr.ty_str(g) for g in c["fn"].get("ga", [])], ops[p]))
+        ctx.ob(rule, "%s:value-path:%s" % (rule, key.split("::")[-1]), not bad and len(calls) >= 4, ("the value passes through %s" % sorted(set(bad))[:3]) if bad else "%d operations, all of the documented primitive chain" % len(calls), fn=f)
+    # substring offsets: a number becomes an offset by truncation to u16 (so a negative or huge offset ends up out of range and the
+    # element is skipped, as documented), never by clamping
+    key = "<rules::eval_context::SubstringFunction as rules::eval_context::Callable>::call"
+    f = cr.fns.get(key)
+    if not f:
+        ctx.lost(rule, rule + ":value-path:substring-offsets", key)
+        return
+    names = {n: l for n, l in f["names"] if isinstance(l, int)}
+    bad = []
+    for nm in ("from", "to"):
+        if nm not in names:
+            bad.append("local %s missing" % nm)
+            continue
+        calls, consts, locs = flow.backward_slice(f, names[nm])
+        allowed = ("<std::rc::Rc<T, A> as std::ops::Deref>::deref", "<std::vec::Vec<T, A> as std::ops::Deref>::deref", "core::slice::<impl [T]>::first",
+                   "std::convert::num::<impl std::convert::From<u16> for usize>::from")
+        for c in calls:
+            p = M.norm_path(c["fn"].get("path", ""))
+            if p not in allowed:
+                bad.append("%s: %s (l.%s)" % (nm, p, c.get("ln")))
+        casts = [(st["rv"]["ck"], cr.ty_str(st["rv"]["ty"])) for bi, si, st in M.iter_stmts(f) if st.get("rv", {}).get("r") == "cast" and isinstance(st["p"], int) and st["p"] in locs]
+        num = [c for c in casts if c[0] in ("IntToInt", "FloatToInt")]
+        if not num or any(c[1] != "u16" for c in num):
+            bad.append("%s: numeric conversion %s instead of truncation to u16" % (nm, num))
+    ctx.ob(rule, rule + ":value-path:substring-offsets", not bad, "; ".join(sorted(set(bad))[:3]) or "both offsets: number -> u16 -> usize", fn=f)
+
+
+def per_element_state(ctx, cr):
+    """element-wise functions compute each element from that element alone: a buffer that is written inside the per-element loop and
+    ends up in the element's result is created inside the loop (a buffer hoisted out of the loop and not cleared makes result k depend
+    on elements 1..k-1)"""
+    from rules.c05 import loop_blocks
+    rule = "R-C18-elementwise"
+    n = 0
+    for impl in sorted(KINDS):
+        key = "rules::functions::" + impl
+        f = cr.fns.get(key)
+        if not f:
+            continue
+        nexts = [bi for bi, t in M.iter_calls(f) if M.norm_path(t["fn"].get("decl", "")) == "std::iter::Iterator::next"]
+        if not nexts:
+            continue
+        header = nexts[0]
+        body = loop_blocks(f, header)
+        names = {l: nme for nme, l in f["names"] if isinstance(l, int)}
+        # locals mutably borrowed by a call inside the loop
+        mut_in_loop = set()
+        for bi, si, st in M.iter_stmts(f):
+            rv = st.get("rv")
+            if bi in body and bi != header and rv and rv["r"] == "ref" and rv.get("m") and isinstance(rv["p"], int):
+                mut_in_loop.add(rv["p"])       # (the loop's own iterator is borrowed in the header block only)
+        # their definitions
+        bad = []
+        for bi, t in M.iter_calls(f):
+            if bi not in body or M.norm_path(t["fn"].get("path", "")) != "std::vec::Vec::push" or len(t["args"]) < 2:
+                continue
+            pl = M.op_place(t["args"][1])
+            if pl is None:
+                continue
+            calls, consts, locs = flow.backward_slice(f, M.place_local(pl))
+            for l in sorted(locs & mut_in_loop):
+                if names.get(l) in (None, "aggr"):
+                    continue
+                defs = [b2 for b2, t2 in M.iter_calls(f) if isinstance(t2["dest"], int) and t2["dest"] == l] + [b2 for b2, s2, st2 in M.iter_stmts(f) if st2.get("p") == l and "rv" in st2]
+                if defs and not any(b2 in body for b2 in defs):
+                    bad.append("`%s` is created before the loop, written inside it and flows into the pushed element" % names.get(l))
+        n += 1
+        ctx.ob(rule, "%s:%s:per-element-state" % (rule, impl), not bad, "; ".join(sorted(set(bad))) or "no buffer is carried from one element to the next", fn=f)
+    if n < 8:
+        ctx.lost(rule, rule + ":per-element-state:floor", "element-wise functions with a loop: %d (floor 8)" % n)
+
+
 def join_shape(ctx, cr):
     """join(list, d) puts d BETWEEN consecutive elements and nowhere else, whatever the elements are: for lists of 0..3 string elements
     (elements and delimiter symbolic, lengths concrete) the sequence of push_str calls on every Ok path is e1 d e2 d .. en.  A decision
@@ -416,6 +523,8 @@ def run(ctx):
     elementwise(ctx, cr)
     count_rule(ctx, cr)
     join_shape(ctx, cr)
+    value_paths(ctx, cr)
+    per_element_state(ctx, cr)
     ctx.assumptions += [
         "the values computed by str::to_uppercase, str::parse, urlencoding::decode, serde_json, chrono, fancy_regex are those primitives' (not analysed)",
         "composition laws (parse_int(parse_string(n)) = n, json_parse round trip) are behavioural and not claimed",
